@@ -26,9 +26,36 @@ fn classify_lenient_diff(s: &str, strict: &UserInputAst, lenient: &UserInputAst,
     } else if count(&jl, "\"type\":\"range\"") > count(&js, "\"type\":\"range\"") && (s.contains('<') || s.contains('>')) {
         // the lenient grammar commits to a range at `<`/`>`, the strict one falls back to a word
         KEY_LENIENT_RANGE_COMMIT
+    } else if errs.iter().any(|e| e == "missing space") || (!s.contains('\\') && unquoted_words(&serde_json::to_value(lenient).unwrap_or(Value::Null)).iter().any(|w| w.chars().any(|c| "`{}\"'[]()".contains(c)))) {
+        // the strict grammar accepts clauses that touch (`a(b)`, `"a"b`, `a^2b`) and ends a word at
+        // quotes/brackets; the lenient grammar wants a space and lets a word run on to `)`/`^`
+        KEY_LENIENT_ADJACENT
     } else {
         "C16:lenient-differs-from-strict"
     }
+}
+
+fn unquoted_words(v: &Value) -> Vec<String> {
+    let mut out = vec![];
+    match v {
+        Value::Object(m) => {
+            if m.get("type").and_then(|t| t.as_str()) == Some("literal") && m.get("delimiter").and_then(|t| t.as_str()) == Some("none") {
+                if let Some(p) = m.get("phrase").and_then(|t| t.as_str()) {
+                    out.push(p.to_string());
+                }
+            }
+            for x in m.values() {
+                out.extend(unquoted_words(x));
+            }
+        }
+        Value::Array(a) => {
+            for x in a {
+                out.extend(unquoted_words(x));
+            }
+        }
+        _ => {}
+    }
+    out
 }
 
 /// does the tree contain a field name with a tab / newline that the input did not escape
